@@ -131,7 +131,8 @@ class KMLServer(Server):
                     # clip to the limit of the layer and to the limit of the whole request
                     return load_limited_to_all(
                         result['layers'][tile_layer.name].get('limited_to'),
-                        result.get('limited_to'))
+                        result.get('limited_to'),
+                        srs=tile_layer.grid.srs)
             raise RequestError('forbidden', status=403)
 
     def _internal_layer(self, tile_request):
